@@ -1,8 +1,10 @@
 package main
 
 import (
+	"encoding/json"
 	"fmt"
 	"os"
+	"sort"
 	"strings"
 )
 
@@ -132,15 +134,63 @@ func runC03(c *Ctx) {
 			return
 		}
 		w := NewWorld(c, ch, r, true, true, true)
+		w.must("POST", "repo/"+w.root+"/instance", []byte(`{"typename":"roi","dataname":"roi1","BlockSize":"32,32,32"}`))
+		rr := r.Fork() // ROI edits draw from their own stream: the world keeps its shape
+		var lastZ [2]int
+		roiOp := func() {
+			o := w.open()
+			if len(o) == 0 {
+				return
+			}
+			n := o[rr.Intn(len(o))]
+			k := rr.Intn(6)
+			if k == 0 {
+				w.must("DELETE", "node/"+n.uuid+"/roi1/roi", nil)
+				w.log("roi delete at v%d", n.v)
+				return
+			}
+			za, zb := lastZ[0], lastZ[1]
+			if k < 3 || za == zb { // a new z range; otherwise re-post over the same z range with other spans
+				za = rr.Intn(20) - 10
+				zb = za + 1 + rr.Intn(4)
+			}
+			lastZ = [2]int{za, zb}
+			var spans [][4]int
+			for z := za; z <= zb; z++ {
+				x := rr.Intn(6)
+				spans = append(spans, [4]int{z, rr.Intn(4), x, x + rr.Intn(5)})
+			}
+			b, _ := json.Marshal(spans)
+			w.must("POST", "node/"+n.uuid+"/roi1/roi", b)
+			w.log("roi post %s at v%d", string(b), n.v)
+		}
+		snapshot := func() map[string]string {
+			m := w.Snapshot()
+			for _, n := range w.nodes {
+				for _, path := range []string{"roi1/roi", "roi1/partition?batchsize=2", "roi1/info"} {
+					resp, _ := ch.HTTP("GET", "node/"+n.uuid+"/"+path, nil)
+					m[fmt.Sprintf("v%d:%s", n.v, path)] = fmt.Sprintf("%d %s", resp.Code, c03Canon(resp.Body))
+				}
+			}
+			resp, _ := ch.HTTP("GET", "repo/"+w.root+"/info", nil)
+			for k, v := range c03Settings(resp.Body) {
+				m["settings:"+k] = v
+			}
+			return m
+		}
 		restarts := 0
 		for s := 0; s < steps; s++ {
-			w.Step()
+			if rr.Chance(0.25) {
+				roiOp()
+			} else {
+				w.Step()
+			}
 			if ch.dead {
 				c.Report("O", "C03 server-died", "the server process died during a well-formed request", strings.Join(w.hist, "\n"))
 				break
 			}
 			if r.Chance(0.15) || s == steps-1 {
-				before := w.Snapshot()
+				before := snapshot()
 				how := "SHUTDOWN"
 				if r.Bool() {
 					how = "EXIT"
@@ -153,7 +203,7 @@ func runC03(c *Ctx) {
 				}
 				ch = ch2
 				w.s = ch
-				after := w.Snapshot()
+				after := snapshot()
 				w.log("restart (%s)", how)
 				restarts++
 				c.Count("restart." + how)
@@ -179,6 +229,71 @@ func runC03(c *Ctx) {
 		}
 		os.RemoveAll(dir)
 	}
+}
+
+// c03Canon: JSON with sorted keys; an absent collection and an empty one read the same (null, {}, [])
+func c03Canon(b []byte) string {
+	var v interface{}
+	if json.Unmarshal(b, &v) != nil {
+		return string(b)
+	}
+	var norm func(x interface{}) interface{}
+	norm = func(x interface{}) interface{} {
+		switch t := x.(type) {
+		case map[string]interface{}:
+			if len(t) == 0 {
+				return nil
+			}
+			for k, y := range t {
+				t[k] = norm(y)
+			}
+			return t
+		case []interface{}:
+			if len(t) == 0 {
+				return nil
+			}
+			for i := range t {
+				t[i] = norm(t[i])
+			}
+			return t
+		}
+		return x
+	}
+	o, _ := json.Marshal(norm(v))
+	return string(o)
+}
+
+// c03Settings: per data instance, the settings a client can see in the repo info (type, syncs, versioned flag,
+// tags, and the type's own settings)
+func c03Settings(repoInfo []byte) map[string]string {
+	var ri struct {
+		DataInstances map[string]struct {
+			Base struct {
+				TypeName    string
+				Syncs       []string
+				Versioned   bool
+				Tags        map[string]string
+				Compression string
+				Checksum    string
+			}
+			Extended json.RawMessage
+		}
+	}
+	out := map[string]string{}
+	if json.Unmarshal(repoInfo, &ri) != nil {
+		out["unparsable"] = string(repoInfo)
+		return out
+	}
+	for name, d := range ri.DataInstances {
+		sy := append([]string{}, d.Base.Syncs...)
+		sort.Strings(sy)
+		tags, _ := json.Marshal(d.Base.Tags)
+		if len(d.Base.Tags) == 0 {
+			tags = []byte("{}")
+		}
+		out[name] = fmt.Sprintf("type=%s syncs=%v versioned=%v compression=%s checksum=%s tags=%s extended=%s", d.Base.TypeName, sy, d.Base.Versioned, d.Base.Compression, d.Base.Checksum, tags, c03Canon(d.Extended))
+	}
+	return out
 }
 
 // c03Directed: a fixed script of the label operations whose start-up replay is most intricate (merge, then
